@@ -34,7 +34,9 @@ WALLS = [((2021, 3, 14, 2, 30, 0), 'skipped'),      # US spring forward
          ((2021, 10, 3, 2, 30, 0), 'skipped'),      # south-east Australia
          ((2021, 4, 4, 2, 30, 0), 'ambiguous'),
          ((2021, 6, 15, 12, 0, 0), 'ordinary'),
-         ((2021, 1, 15, 12, 0, 0), 'ordinary')]
+         ((2021, 1, 15, 12, 0, 0), 'ordinary'),
+         # the first and last hour of the calendar: for half of the offsets the UTC instant lies beyond it
+         ((1, 1, 1, 0, 30, 0), 'edge'), ((9999, 12, 31, 23, 30, 0), 'edge')]
 MACHINERY_CLAUSES = ('x_offset_table', 'unknown_trace_kind')
 
 _G = {}      # per-process handles (set before fork)
